@@ -8,6 +8,7 @@
 -/
 import SuplaVerif.Model.Cred
 import SuplaVerif.Model.Mqtt
+import SuplaVerif.Model.MqttTopic
 
 namespace SuplaVerif.C17
 open Bytes
@@ -173,5 +174,164 @@ theorem c17_header_too_long (ty flags rem : Nat) (h : rem ≥ 268435456) : packH
 
 example : packHeader 1 0 128 = some [0x10, 0x80, 0x01] := by decide
 example : packHeader 1 0 127 = some [0x10, 0x7f] := by decide
+
+
+/-! ### command topics (Model/MqttTopic) -/
+
+open SuplaVerif in
+theorem splitSlash_spec : ∀ (t a r : Bytes), splitSlash t = some (a, r) ↔ (t = a ++ 47 :: r ∧ (47 : UInt8) ∉ a) := by
+  intro t
+  induction t with
+  | nil => intro a r; simp [splitSlash]
+  | cons c cs ih =>
+    intro a r
+    unfold splitSlash
+    by_cases hc : c = 47
+    · rw [if_pos hc]
+      constructor
+      · intro h; simp only [Option.some.injEq, Prod.mk.injEq] at h; obtain ⟨h1, h2⟩ := h; subst h1; subst h2; simp [hc]
+      · intro ⟨h1, h2⟩
+        cases a with
+        | nil => simp at h1; simp [h1.2]
+        | cons x xs =>
+          simp only [List.cons_append, List.cons.injEq] at h1
+          exact absurd (by rw [← h1.1, hc]; simp) h2
+    · rw [if_neg hc]
+      constructor
+      · intro h
+        cases hs : splitSlash cs with
+        | none => rw [hs] at h; cases h
+        | some p =>
+          rw [hs] at h
+          simp only [Option.map_some, Option.some.injEq, Prod.mk.injEq] at h
+          obtain ⟨h1, h2⟩ := h
+          have := (ih p.1 p.2).mp (by rw [hs])
+          subst h1; subst h2
+          refine ⟨by rw [this.1]; simp, ?_⟩
+          simp only [List.mem_cons, not_or]
+          exact ⟨fun e => hc e.symm, this.2⟩
+      · intro ⟨h1, h2⟩
+        cases a with
+        | nil => simp at h1; exact absurd h1.1 hc
+        | cons x xs =>
+          simp only [List.cons_append, List.cons.injEq] at h1
+          have hx : (47 : UInt8) ∉ xs := fun hm => h2 (by simp [hm])
+          have := (ih xs r).mpr ⟨h1.2, hx⟩
+          rw [this, h1.1]; rfl
+
+open SuplaVerif in
+/-- **C17.T1 (the channel number of a topic)** the number parser accepts exactly: the prefix, a non-empty run of at most nine
+    decimal digits whose value is at most 255, a '/', and hands on what follows - for every prefix and every topic -/
+theorem c17_channel_grammar (pre t rest : Bytes) (n : Nat) :
+    parseIntWithPrefix pre t = some (n, rest) ↔
+      ∃ ds, t = pre ++ ds ++ 47 :: rest ∧ ds ≠ [] ∧ (∀ c ∈ ds, isDigB c = true) ∧ ds.length ≤ 9 ∧ decNat ds 0 = n ∧ n ≤ 255 := by
+  unfold parseIntWithPrefix
+  constructor
+  · intro h
+    by_cases hp : pre.isPrefixOf t = true
+    · rw [if_pos hp] at h
+      have ht : pre ++ t.drop pre.length = t := List.prefix_iff_eq_append.mp (List.isPrefixOf_iff_prefix.mp hp)
+      cases hs : splitSlash (t.drop pre.length) with
+      | none => rw [hs] at h; cases h
+      | some p =>
+        obtain ⟨ds, r⟩ := p
+        rw [hs] at h
+        simp only at h
+        have sp := (splitSlash_spec _ ds r).mp hs
+        by_cases h1 : ds = []
+        · rw [if_pos h1] at h; cases h
+        · rw [if_neg h1] at h
+          by_cases h2 : (!ds.all isDigB) = true
+          · rw [if_pos h2] at h; cases h
+          · rw [if_neg h2] at h
+            by_cases h3 : ds.length > 9
+            · rw [if_pos h3] at h; cases h
+            · rw [if_neg h3] at h
+              by_cases h4 : decNat ds 0 > 255
+              · rw [if_pos h4] at h; cases h
+              · rw [if_neg h4] at h
+                simp only [Option.some.injEq, Prod.mk.injEq] at h
+                refine ⟨ds, ?_, h1, ?_, by omega, h.1, by omega⟩
+                · rw [← ht, sp.1, ← h.2]; simp
+                · have : ds.all isDigB = true := by simpa using h2
+                  exact fun c hc => List.all_eq_true.mp this c hc
+    · rw [if_neg hp] at h; cases h
+  · intro ⟨ds, ht, h1, h2, h3, h4, h5⟩
+    have hp : pre.isPrefixOf t = true := by
+      rw [List.isPrefixOf_iff_prefix, ht, List.append_assoc]; exact List.prefix_append _ _
+    rw [if_pos hp]
+    have hd : t.drop pre.length = ds ++ 47 :: rest := by rw [ht, List.append_assoc]; simp
+    have hno : (47 : UInt8) ∉ ds := fun hm => by have := h2 47 hm; simp [isDigB] at this
+    have hs := (splitSlash_spec (t.drop pre.length) ds rest).mpr ⟨hd, hno⟩
+    rw [hs]
+    simp only
+    rw [if_neg h1, if_neg (by simp; exact fun c hc => h2 c hc), if_neg (by omega), if_neg (by omega), h4]
+
+open SuplaVerif in
+/-- **C17.T2 (a relay command is addressed exactly)** the relay command parser acts only on a topic that is the device prefix,
+    '/', "channels/", the channel number as above, '/', and one of the two command names, with a payload that command knows -/
+theorem c17_set_on_grammar (dev topic msg : Bytes) (ch v : Nat) (h : parserSetOn dev topic msg = some (ch, v)) :
+    ∃ ds cmd, topic = dev ++ 47 :: (sChannels ++ ds ++ 47 :: cmd) ∧ ds ≠ [] ∧ (∀ c ∈ ds, isDigB c = true) ∧ ds.length ≤ 9 ∧
+      decNat ds 0 = ch ∧ ch ≤ 255 ∧
+      ((cmd = sSetOn ∧ setOnValue msg = some v) ∨ (cmd = sExec ∧ execValue msg = some v)) := by
+  unfold parserSetOn at h
+  by_cases h0 : topic = [] ∨ msg = [] ∨ dev = [] ∨ dev.length + 1 ≥ topic.length
+  · rw [if_pos h0] at h; cases h
+  · rw [if_neg h0] at h
+    by_cases hp : (dev.isPrefixOf topic && (topic.drop dev.length).head? == some 47) = true
+    · rw [if_pos hp] at h
+      have hp' := Bool.and_eq_true_iff.mp hp
+      have ht : dev ++ topic.drop dev.length = topic := List.prefix_iff_eq_append.mp (List.isPrefixOf_iff_prefix.mp hp'.1)
+      have hh : (topic.drop dev.length).head? = some 47 := by simpa using hp'.2
+      have hd : topic.drop dev.length = 47 :: topic.drop (dev.length + 1) := by
+        cases hx : topic.drop dev.length with
+        | nil => rw [hx] at hh; cases hh
+        | cons x xs =>
+          rw [hx] at hh
+          simp only [List.head?_cons, Option.some.injEq] at hh
+          have : topic.drop (dev.length + 1) = xs := by
+            rw [← List.drop_drop, hx]; rfl
+          rw [hh, this]
+      cases hpi : parseIntWithPrefix sChannels (topic.drop (dev.length + 1)) with
+      | none => rw [hpi] at h; cases h
+      | some p =>
+        obtain ⟨c, rest⟩ := p
+        rw [hpi] at h
+        simp only at h
+        obtain ⟨ds, e1, e2, e3, e4, e5, e6⟩ := (c17_channel_grammar sChannels _ rest c).mp hpi
+        by_cases hr : rest = sSetOn
+        · rw [if_pos hr] at h
+          cases hv : setOnValue msg with
+          | none => rw [hv] at h; cases h
+          | some w =>
+            rw [hv] at h
+            simp only [Option.map_some, Option.some.injEq, Prod.mk.injEq] at h
+            refine ⟨ds, rest, ?_, e2, e3, e4, by rw [e5, h.1], by omega, Or.inl ⟨hr, by rw [h.2]⟩⟩
+            rw [← ht, hd, e1]
+        · rw [if_neg hr] at h
+          by_cases hr2 : rest = sExec
+          · rw [if_pos hr2] at h
+            cases hv : execValue msg with
+            | none => rw [hv] at h; cases h
+            | some w =>
+              rw [hv] at h
+              simp only [Option.map_some, Option.some.injEq, Prod.mk.injEq] at h
+              refine ⟨ds, rest, ?_, e2, e3, e4, by rw [e5, h.1], by omega, Or.inr ⟨hr2, by rw [h.2]⟩⟩
+              rw [← ht, hd, e1]
+          · rw [if_neg hr2] at h; cases h
+    · rw [if_neg hp] at h; cases h
+
+open SuplaVerif in
+/- non-vacuity: "dev/channels/12/set/on" with payload "TRUE" switches channel 12 on; 256, "1.9", "-1" and an empty number
+   address nothing -/
+example : parserSetOn [100, 101, 118] ([100, 101, 118, 47] ++ sChannels ++ [49, 50, 47] ++ sSetOn) [84, 82, 85, 69] = some (12, 1) := by decide
+open SuplaVerif in
+example : parserSetOn [100, 101, 118] ([100, 101, 118, 47] ++ sChannels ++ [50, 53, 54, 47] ++ sSetOn) [49] = none := by decide
+open SuplaVerif in
+example : parserSetOn [100, 101, 118] ([100, 101, 118, 47] ++ sChannels ++ [49, 46, 57, 47] ++ sSetOn) [49] = none := by decide
+open SuplaVerif in
+example : parserSetOn [100, 101, 118] ([100, 101, 118, 47] ++ sChannels ++ [45, 49, 47] ++ sSetOn) [49] = none := by decide
+open SuplaVerif in
+example : parserSetOn [100, 101, 118] ([100, 101, 118, 47] ++ sChannels ++ [47] ++ sSetOn) [49] = none := by decide
 
 end SuplaVerif.C17
